@@ -3,8 +3,10 @@ import json
 import os
 import vf
 
+# trace values have many different lengths (append-only memdb buffer: size-dependent overwrite paths)
+TRACE_VALS = ["v" * n for n in (1, 2, 3, 4, 5, 6, 7, 8, 9, 10, 11, 12, 13, 15, 17, 20, 24)]
 KEYSEQ3 = [[1], [1, 2], [2]]
-KEYSEQC = [[1], [1, 1], [1, 1, 2], [2], [2, 1], [2, 1, 2]]
+KEYSEQC = [[1], [1, 1], [1, 2], [2], [2, 1], [2, 2]]
 
 
 def prefixes_of(keyseq):
@@ -155,7 +157,7 @@ def self_test(ctx, trace_path):
     bad1 = [dict(e) for e in ev]
     rc = list(bad1[idx]["readC"])
     k = bad1[idx]["k"] - 1
-    rc[k] = "" if rc[k] != "" else "x"
+    rc[k] = "" if rc[k] != "" else "v"
     bad1[idx]["readC"] = rc
     bad2 = ev[:idx] + ev[idx + 1:]
     ok = True
